@@ -13,7 +13,8 @@ from c01 import C01
 
 KNOWN = ("blksize", "timeout", "tsize")
 ORDER = {"blksize": 0, "timeout": 1, "tsize": 2}
-UNKNOWN_NAMES = ["windowsize", "x", "blksize2", "tsiz", "time out", "", "blksiz\xe9", "\xc0", "tsize\xa0"]
+UNKNOWN_NAMES = ["windowsize", "x", "blksize2", "tsiz", "time out", "", "blksiz\xe9", "\xc0", "tsize\xa0", "o" * 200,
+                 "timeout ", " blksize", "multicast"]
 NON_DECIMAL = ["", "0", "08", "008", "+8", "-8", " 8", "8 ", "8\n", "8.0", "0x10", "1e3", "1_0", "eight", "8a", "a8",
                "1024x", "5s", "512.0", "8\xa0", "\xb2", "\xbd", "8\xe9", "\xb9\xb2", "8\x00", "8\t", "True", "None"]
 HUGE = ["99999999999999999999", "1" + "0" * 60, "9" * 300]
@@ -31,12 +32,16 @@ def blksize_grid(max_bs):
 
 
 def timeout_grid(max_tmo):
-    nums = [0, 1, 2, 3, max_tmo - 1, max_tmo, max_tmo + 1, 254, 255, 256]
+    m = int(max_tmo)                      # max_timeout may be fractional: n is accepted iff n <= max_timeout
+    nums = [0, 1, 2, 3, m - 1, m, m + 1, 254, 255, 256]
     return sorted({str(n) for n in nums if n >= 0}) + ["01", "+1", "-1", " 1", "1 ", "", "1.0", "one", "1s"] + HUGE[:2]
 
 
 TSIZE_GRID = ["0", "1", "00", "", "-0", "+0", " 0", "0 ", "512", "0\n", "O"]
 
+# default_timeout / max_timeout are numbers of seconds and may be fractional (the server clamps, it does not round);
+# all values are exact in ticks of 1/1024 s
+FRACTIONAL = [1.5, 1.25, 2.75, 1.0009765625, 1.9990234375, 10.0, 2.0]
 KINDS = [("bytesio", 0), ("bytesio", 3), ("file", 0), ("file", 4), ("pipe",), ("noreg",), ("sized",)]
 # ("fileread", k): a real buffered file (open(path, "rb")) whose first k bytes the handler has READ (not seek()ed)
 # before returning it: the logical position is k while the descriptor offset is at the end of the read-ahead
@@ -80,6 +85,7 @@ def with_script(c, style, rng):
     """attach a client script: coop = ACK 0 then every block; silent = nothing (retransmission interval
     visible); skip0 = acknowledges block 1 without ACK 0; late = ACKs arriving just before the deadline"""
     bs, tmo, oack = predict(c)
+    tmt = int(tmo * T.TICKS)                 # the interval in ticks (default_timeout may be fractional)
     n = len(c["content"]) + (c["content"].count(b"\n") + c["content"].count(b"\r") if c["netascii"] else 0)
     wants = ([0] if oack else []) + T.numbering(n // bs + 1, c["wrap"])
     if style == "coop":
@@ -93,13 +99,13 @@ def with_script(c, style, rng):
     elif style == "late":
         ev, t = [], 0
         for w in wants:
-            t += tmo * T.TICKS - 1
+            t += tmt - 1
             ev.append((t, 0, T.ack(w)))
     elif style == "dup":        # a duplicate of the previous ACK arrives at mid-interval, the matching ACK a little later
         ev, t, prev = [], 0, None
         for w in wants:
             if prev is not None:
-                t += (tmo * T.TICKS) // 2
+                t += tmt // 2
                 ev.append((t, 0, T.ack(prev)))
                 ev.append((t + 1, 0, T.ack(prev)))
                 t += 3
@@ -107,8 +113,13 @@ def with_script(c, style, rng):
                 t += 1
             ev.append((t, 0, T.ack(w)))
             prev = w
+    elif style == "lose1":      # the first packet and block 1 are lost once each: retransmission after one interval
+        ev, t = [], 0
+        for i, w in enumerate(wants):
+            t += (tmt + 2) if i < 2 else 1
+            ev.append((t, 0, T.ack(w)))
     elif style == "lossy":
-        ev = T.coop_script(rng, wants, tmo * T.TICKS, c["retries"], fault_rate=0.6)
+        ev = T.coop_script(rng, wants, tmt, c["retries"], fault_rate=0.6)
     else:
         raise ValueError(style)
     return dict(c, events=[(int(t), int(a), bytes(d)) for (t, a, d) in ev])
@@ -465,6 +476,20 @@ class C07(C01):
                 for na in (False, True):
                     c = self.base(opts, kind=kind, netascii=na)
                     yield self.finish(c, rng, "coop")
+        # (j) fractional default_timeout / max_timeout: the default is used exactly when no timeout option is
+        #     acknowledged (absent, rejected), an acknowledged one is used as whole seconds; a timeout option n is
+        #     accepted iff n <= max_timeout also for a fractional maximum
+        for dflt in FRACTIONAL:
+            for max_tmo in (dflt, 2.5, 30, 254.9990234375, 255.0):
+                if dflt > max_tmo:
+                    continue
+                for opts in ([], [("timeout", "0")], [("timeout", "08")], [("timeout", "999")], [("TIMEOUT", "2")],
+                             [("timeout", "3")], [("blksize", "8")], [("tsize", "0"), ("timeout", "256")],
+                             [("timeout", str(int(max_tmo)))], [("timeout", str(int(max_tmo) + 1))]):
+                    for style in (("silent", "lose1") if quick else ("silent", "lose1", "late", "dup", "coop")):
+                        c = self.base(opts, max_tmo=max_tmo, default_tmo=dflt, retries=rng.choice([1, 2]),
+                                      kind=("bytesio", 0))
+                        yield self.finish(c, rng, style)
         # (h) duplicate / stale ACKs at mid-interval with a negotiated time-out different from the default
         for (tmo, dflt) in ((1, 2), (3, 1), (2, 5), (None, 2)):
             for extra in ([], [("blksize", "8")], [("tsize", "0")]):
@@ -478,7 +503,9 @@ class C07(C01):
         for _ in range(6000 if quick else 60000):
             max_bs = rng.choice([8, 512, 1024, 1428, 65464])
             max_tmo = rng.choice([1, 2, 5, 30, 255])
-            dflt = rng.choice([d for d in (1, 2, 5) if d <= max_tmo])
+            dflt = rng.choice([d for d in (1, 2, 5, 1.5, 1.25, 2.75) if d <= max_tmo])
+            if rng.random() < 0.15:
+                max_tmo = max(dflt, rng.choice([1.5, 2.5, 29.5]))
             opts = []
             for _k in range(rng.randrange(0, 6)):
                 s = rng.choice(["blksize", "timeout", "tsize", "unknown"])
@@ -517,8 +544,14 @@ class C07(C01):
         quick = tier == "quick"
         n_seq, n_req, fails = 0, 0, []
         for _ in range(60 if quick else 800):
-            limits = (rng.choice([512, 1024, 1428, 65464]), rng.choice([1, 5, 30, 255]), None, rng.choice([1, 2, 3]))
-            limits = (limits[0], limits[1], rng.choice([d for d in (1, 2, 5) if d <= limits[1]]), limits[3])
+            # raw configuration values as an administrator may give them (fractional, out of range); TftpServer clamps
+            # max_timeout into [1, 255] and default_timeout into [1, max_timeout] and does not round
+            raw_max = rng.choice([1, 5, 30, 255, 2.5, 1.5, 29.75, 0.5, 300.25, 255.0])
+            raw_dflt = rng.choice([1, 2, 5, 1.5, 1.25, 2.75, 1.0009765625, 0.25, 40.5, 10.0])
+            eff_max = min(max(raw_max, 1), 255)
+            eff_dflt = min(max(raw_dflt, 1), eff_max)
+            limits = (rng.choice([512, 1024, 1428, 65464]), eff_max, eff_dflt, rng.choice([1, 2, 3]))
+            raw_limits = (limits[0], raw_max, raw_dflt, limits[3])
             cases, rrqs = [], []
             for _k in range(rng.randrange(3, 6)):
                 wire = []
@@ -538,10 +571,10 @@ class C07(C01):
                     dec["".join(ch for ch in nm if ord(ch) < 128)] = "".join(ch for ch in v if ord(ch) < 128)
                 c = self.base(list(dec.items()), max_bs=limits[0], max_tmo=limits[1], default_tmo=limits[2],
                               kind=rng.choice(KINDS + READ_KINDS + FAULT_KINDS), netascii=na, retries=limits[3])
-                c = self.finish(c, rng, rng.choice(["coop", "coop", "dup", "silent", "skip0"]))
+                c = self.finish(c, rng, rng.choice(["coop", "coop", "dup", "silent", "skip0", "lose1"]))
                 cases.append(c)
                 rrqs.append(encode_rrq(b"some/file", mode, wire))
-            traces = run_sequence(cases, rrqs, limits)
+            traces = run_sequence(cases, rrqs, raw_limits)
             n_seq += 1
             not_served = [any(e[0] in (98, 99) for e in tr) for tr in traces]
             traces = [[e for e in tr if e[0] not in (98, 99)] for tr in traces]
